@@ -7,8 +7,11 @@ package main
 import (
 	"encoding/binary"
 	"fmt"
+	"os"
+	"runtime"
 	"sort"
 	"strings"
+	"sync/atomic"
 	"time"
 
 	"github.com/scionproto/scion/pkg/addr"
@@ -815,6 +818,7 @@ func main() {
 		"segments, perturbed by duplicates (same pointer, deep copy), re-beaconed variants with other expiry/MTU, and " +
 		"segments not touching src/dst; each case is run with findAllIdentical true and false. Non-trivial = at least " +
 		"one path returned; distinct by op line"
+	go watchdog(e)
 	nTopo := e.N(260, 4000)
 	casesPer := 6
 	base := int64(1700000000)
@@ -931,10 +935,39 @@ func main() {
 	e.Finish()
 }
 
+// watchdog: a Combine that does not come back (e.g. a search that no longer terminates on a cyclic
+// core graph) must end the run with a failing input instead of exhausting the machine.
+var (
+	curOp    atomic.Pointer[string]
+	curStart atomic.Int64
+)
+
+func watchdog(e *vlib.Env) {
+	var ms runtime.MemStats
+	for {
+		time.Sleep(200 * time.Millisecond)
+		op := curOp.Load()
+		if op == nil {
+			continue
+		}
+		runtime.ReadMemStats(&ms)
+		d := time.Since(time.Unix(0, curStart.Load()))
+		if d > 30*time.Second || ms.HeapAlloc > 3<<30 {
+			e.Violate(e.Prop+"/no-termination", fmt.Sprintf("Combine did not return (%.1fs, heap %d MiB)",
+				d.Seconds(), ms.HeapAlloc>>20), map[string]any{"op": *op})
+			e.Finish()
+			os.Exit(0)
+		}
+	}
+}
+
 func runCase(e *vlib.Env, c *caseT) {
 	in := &c.in
 	in.index()
 	opAll := opLine("all", in.src, in.dst, in.ups, in.cores, in.downs)
+	curStart.Store(time.Now().UnixNano())
+	curOp.Store(&opAll)
+	defer curOp.Store(nil)
 	opUniq := opLine("uniq", in.src, in.dst, in.ups, in.cores, in.downs)
 	ansAll, ok1 := vlib.Safe(func() string {
 		c.all = combinator.Combine(in.src, in.dst, in.ups, in.cores, in.downs, true)
